@@ -83,31 +83,76 @@ def check(ctx) -> Result:
     res.add(last_else is not None and any(isinstance(s, ast.Raise) and "DisplayError" in src(s) for s in last_else), "H4-dispatch-total", "DrawSVGComponents.add", add.site(), add.qualname, "unknown tags end in raise DisplayError", "renderer dispatch chain does not end in raise DisplayError", construct="add")
     # ---- taint: parameter values may be label strings
     nt = 0
+
+    def _numeric_uses(fn_node, v):
+        out = []
+        for n in walk_no_nested(fn_node):
+            if isinstance(n, ast.Call) and src(n.func) in ("round", "np.round", "int", "float", "abs") and any(isinstance(x, ast.Name) and x.id == v for arg in n.args for x in ast.walk(arg)):
+                out.append(n)
+            elif isinstance(n, ast.BinOp) and not isinstance(n.op, ast.Add) and any(isinstance(x, ast.Name) and x.id == v for x in (n.left, n.right)):
+                out.append(n)
+            elif isinstance(n, ast.Compare) and isinstance(n.left, ast.Name) and n.left.id == v and isinstance(n.ops[0], (ast.Lt, ast.Gt, ast.LtE, ast.GtE)):
+                out.append(n)
+        return out
+
+    def _stmt_of(n, par):
+        while not isinstance(n, ast.stmt):
+            n = par[n]
+        return n
+
+    def _expr_guarded(use, par, v):
+        """the use sits in the branch of a conditional expression / `and` chain that excludes strings"""
+        n = use
+        while not isinstance(n, ast.stmt):
+            p_ = par[n]
+            if isinstance(p_, ast.IfExp):
+                t = src(p_.test).replace(" ", "")
+                if (n is p_.orelse and t == f"isinstance({v},str)") or (n is p_.body and t == f"notisinstance({v},str)"):
+                    return True
+            if isinstance(p_, ast.BoolOp) and isinstance(p_.op, ast.And) and n is not p_.values[0] and any(src(x).replace(" ", "") == f"notisinstance({v},str)" for x in p_.values[:p_.values.index(n)]):
+                return True
+            n = p_
+        return False
+
+    def _helper_numeric(call, frel, v):
+        """positional parameters of a repository helper that receive v and are used as numbers there without a string guard"""
+        out = []
+        if not isinstance(call.func, ast.Name):
+            return out
+        r = ctx.ix.resolve(frel, call.func.id)
+        g = r[1] if r and r[0] == "func" else None
+        if g is None or g.name == "process_parameter_value":
+            return out
+        gp = g.params()
+        gpar = ctx.tree.parents(g.rel)
+        for k, a_ in enumerate(call.args):
+            if isinstance(a_, ast.Name) and a_.id == v and k < len(gp):
+                for u in _numeric_uses(g.node, gp[k]):
+                    facts = facts_at(g.node, _stmt_of(u, gpar)) or []
+                    if frozenset({Lit("notisinstance", gp[k], "str")}) not in facts and not _expr_guarded(u, gpar, gp[k]):
+                        out.append((g, u))
+        return out
     for ci in (DS, DM):
         for f in ci.all_funcs():
             srcs = [a for a in walk_no_nested(f.node) if isinstance(a, ast.Assign) and isinstance(a.value, ast.Call) and src(a.value.func) == "process_parameter_value" and isinstance(a.targets[0], ast.Name)]
             for a in srcs:
                 v = a.targets[0].id
                 par = ctx.tree.parents(f.rel)
+                uses = [(u, "") for u in _numeric_uses(f.node, v)]
                 for n in walk_no_nested(f.node):
-                    use = None
-                    if isinstance(n, ast.Call) and src(n.func) in ("round", "np.round", "int", "float", "abs") and any(isinstance(x, ast.Name) and x.id == v for arg in n.args for x in ast.walk(arg)):
-                        use = n
-                    elif isinstance(n, ast.BinOp) and not isinstance(n.op, ast.Add) and any(isinstance(x, ast.Name) and x.id == v for x in (n.left, n.right)):
-                        use = n
-                    elif isinstance(n, ast.Compare) and isinstance(n.left, ast.Name) and n.left.id == v and isinstance(n.ops[0], (ast.Lt, ast.Gt, ast.LtE, ast.GtE)):
-                        use = n
-                    if use is None:
-                        continue
-                    st = use
-                    while not isinstance(st, ast.stmt):
-                        st = par[st]
+                    if isinstance(n, ast.Call):
+                        hn = _helper_numeric(n, f.module, v)
+                        if hn:
+                            nt += len(hn) - 1
+                            uses.append((n, f" (`{hn[0][0].qualname}` computes `{src(hn[0][1])[:40]}` with it)"))
+                for use, extra in uses:
+                    st = _stmt_of(use, par)
                     facts = facts_at(f.node, st) or []
                     nt += 1
-                    ok = frozenset({Lit("notisinstance", v, "str")}) in facts
+                    ok = frozenset({Lit("notisinstance", v, "str")}) in facts or _expr_guarded(use, par, v)
                     res.add(ok, "T-numeric-use-guarded", f"{f.qualname}:{v}", f.site(use), f.qualname, "numeric formatting only when the value is not a label string",
-                            f"`{src(use)[:60]}` uses parameter value `{v}`, which is a label string when the Parameter has a label and values are not shown: display raises TypeError", construct=src(use)[:100])
-    res.floor("T numeric uses of parameter values", nt, 10)
+                            f"`{src(use)[:60]}` uses parameter value `{v}`{extra}, which is a label string when the Parameter has a label and values are not shown: display raises TypeError", construct=src(use)[:100])
+    res.floor("T numeric uses of parameter values", nt, 6)
     # every parameter-bearing field drawn goes through process_parameter_value
     for ci in (DS, DM):
         for hname, fld in (("_add_ps", "phi"), ("_add_bs", "reflectivity"), ("_add_loss", "loss")):
